@@ -106,12 +106,15 @@ structure St where
   world : Entry
   evs : List Ev := []
 
+/-- `get_input`. -/
+def getInput (w : Entry) (input : Option Path) (stdin : String) : Option String :=
+  match input with
+  | some p => readToString w p
+  | none => some stdin
+
 /-- `format_one`: `none` = `Err` (I/O error), `some changed` = `Ok(status)`. -/
 def formatOne (lib : Lib) (a : Args) (input : Option Path) (stdin : String) (st : St) : St × Option Bool :=
-  let content? := match input with
-    | some p => readToString st.world p
-    | none => some stdin
-  match content? with
+  match getInput st.world input stdin with
   | none => (st, none)
   | some content =>
     match formatDebug lib a content with
@@ -196,6 +199,12 @@ def summaryMsg (a : Args) (formatted unchanged : Nat) : String :=
 /-- Exit status of `main` for `Ok(status)`. -/
 def exitOf (a : Args) (changed : Bool) : Nat := if a.check && changed then 1 else 0
 
+/-- File name of the entry the walk starts from. -/
+def rootNameOf (p : Path) (rootName : String) : String :=
+  match p.getLast? with
+  | some n => n
+  | none => rootName
+
 /-- `format_all` and the end of `main`. `rootName`: name of the directory the walk starts from. -/
 def runFormatAll (lib : Lib) (a : Args) (w : Entry) (dir : Option Path) (rootName : String) : Result :=
   let p := dir.getD []
@@ -203,8 +212,7 @@ def runFormatAll (lib : Lib) (a : Args) (w : Entry) (dir : Option Path) (rootNam
   | none => -- walkdir reports an error entry, which is dropped
     { world := w, evs := infoEv a (summaryMsg a 0 0), exit := 0 }
   | some e =>
-    let name := match p.getLast? with | some n => n | none => rootName
-    let r := walk lib a { st := { world := w } } p name 0 e
+    let r := walk lib a { st := { world := w } } p (rootNameOf p rootName) 0 e
     let evs := r.st.evs ++ infoEv a (summaryMsg a r.formatted r.unchanged)
     if r.errors > 0 then { world := r.st.world, evs := evs ++ [.error], exit := 1 }
     else { world := r.st.world, evs := evs, exit := exitOf a r.changed }
